@@ -31,16 +31,38 @@ def lst2bas(ctx, text):
     return status, data, d
 
 
+BAS_NAMES = [("conv.", "bas", ",a"), ("CONV.", "BAS", ",A"), ("my.prog.v2.", "Bas", ",a"), ("a b.", "baS", ",A"), ("dir.bas/in.", "bas", ",a")]
+NEIGHBOURS = [b"\r10 A", b"\r10 A\r", b"20 B\n", b"", b"X"]     # with and without a final separator: state must not leak into the next file
+
+
 def bas2lst(ctx, data, dos, d=None):
+    """one ASCII BASIC file through the CLI; its name varies (case of extension and of the ,a option, more dots, a directory
+    whose name ends in .bas) and, one time out of three, another file is converted by the same command before or after it"""
     from moto_bas2lst.bas2lst import BasicToListingCli
     d = d or ctx.fresh_dir()
-    p = os.path.join(d, "conv.bas")
+    h = len(data) + sum(data[:16])
+    stem, ext, suffix = BAS_NAMES[h % len(BAS_NAMES)]
+    p = os.path.join(d, stem + ext)
+    os.makedirs(os.path.dirname(p), exist_ok=True)
     with open(p, "wb") as f:
         f.write(data)
-    argv = [p + ",a"] + (["--dos"] if dos else [])
-    status, _ = run_cli(BasicToListingCli().run, argv)
-    lst = os.path.join(d, "conv.lst")
+    argv = [p + suffix]
+    other = None
+    if h % 3 == 0:
+        other = os.path.join(d, "neighbour.bas")
+        odata = NEIGHBOURS[h % len(NEIGHBOURS)]
+        with open(other, "wb") as f:
+            f.write(odata)
+        argv = [other + ",a", p + suffix] if h % 2 else [p + suffix, other + ",a"]
+    status, _ = run_cli(BasicToListingCli().run, argv + (["--dos"] if dos else []))
+    lst = os.path.join(d, stem + "lst")
     out = open(lst, "rb").read() if os.path.exists(lst) else None
+    if other is not None and status == "ok0":
+        eol = b"\r\n" if dos else b"\n"
+        want = b"".join(l + eol for l in odata.replace(b"\r", b"\n").split(b"\n") if l)
+        got = open(other[:-3] + "lst", "rb").read() if os.path.exists(other[:-3] + "lst") else None
+        if got != want:
+            return "NeighbourFileWrong", out
     return status, out
 
 
